@@ -3,8 +3,8 @@
 //
 // What is in this file
 //   * the trait `DiffableStr` reduced to `len` and `slice` (all tokenizer methods, `as_str`, `to_string_lossy`,
-//     `ends_with_newline`, `as_bytes`, `is_empty` are dropped with `only=`: Verus cannot ingest the tokenizer
-//     signatures' implementations and nothing here calls them), extended with a ghost byte view
+//     `ends_with_newline`, `as_bytes`, `is_empty` are dropped with `only=`: nothing here calls them and their
+//     implementations are outside Verus' subset), extended with a ghost byte view
 //     `bytes(&self) -> Seq<u8>` and the documented meaning of the two methods as their contract:
 //         len()      ensures  res == self.bytes().len()
 //         slice(rng) requires rng.start <= rng.end <= self.bytes().len()
@@ -22,6 +22,18 @@
 //   * dropped: `TextDiffRemapper::from_text_diff` (needs `TextDiff`, outside Verus) and `iter_slices`
 //     (`impl Iterator` chain of `Option::into_iter().chain(..).map(closure)`, outside Verus); `iter_slices` is
 //     represented by the spec transcription `slice_reqs` below (a MODEL, not checked against the code).
+//   * EMPTY / REVERSED ranges in `slice(range)` (n = number of tokens), decided by the contract below:
+//       - range.end == 0 (e.g. 0..0): `range.end - 1` underflows - a panic in debug builds, wrap-around to
+//         usize::MAX in release builds (then `get` fails and the result is None); reached only when
+//         `indexes.get(range.start)` succeeded, i.e. range.start < n.  Excluded by `requires 0 < range.end`.
+//       - k..k with 0 < k < n: no panic; start = indexes[k].start and end = indexes[k-1].end are EQUAL
+//         (lemma_slice_empty_range), so the result is Some(empty slice) - this is why "never return an empty
+//         slice" needs ops whose consumed sides are non-empty;  n..n (and anything with range.start >= n): None.
+//       - range.start > range.end: the computed byte range is reversed whenever a token in between is non-empty and
+//         `source.slice` panics.  Excluded by `requires range.start <= range.end`.
+//     So panic-freedom holds under `0 < range.end && range.start <= range.end` (+ the index table fits its
+//     source, `contig`); the requests `iter_slices` makes satisfy the simpler `range.start < range.end`
+//     (lemma_slice_reqs_pre / lemma_slice_reqs_in_script), for which `slice` is Some iff range.end <= n.
 //   * not extracted: `impl Index<Range<usize>> for SliceRemapper` (`self.slice(range).expect(..)`: panics exactly
 //     when `slice` returns None, see the contract of `slice`).
 verus! {
